@@ -475,6 +475,8 @@ class Universe:
         'ret' (payload = returned object), 'out' (payload = string of vectors) ; exceptions propagate."""
         t = line.split(' ')
         op = t[0]
+        if op not in ('apply', 'applys', 'applys2', 'subcancel') and uses_MW(self, t): self.mw_touched = True
+        if op == 'subcancel' and t[2].startswith('r') and self.ref(t[1])._basis != self.ref(t[2])._basis: self.mw_touched = True
         num = plain
         barg = {'-': None, 'm': 'mol', 'w': 'wt', 'x': 'xx'}
         def other(s):
@@ -1213,6 +1215,10 @@ def gen_feed(rng, ph, hot=(), n=None):
 
 
 def obj_clean(U, o):
+    """every number of the object is exact (few significant bits) — and no operation of this case has multiplied or
+    divided by molecular weights yet: a re-based coefficient can LOOK short (MW(Glucose)/MW(AceticAcid) rounds to 3)
+    and still differ from the exact value, so after the first re-basing nothing counts as residue-free"""
+    if getattr(U, 'mw_touched', False): return False
     f = U.fields(o)
     return all(short(x) for row in f['v'] for x in row) and all(short(x) for x in f['X'])
 
@@ -1289,7 +1295,23 @@ def gen_op(rng, U, friendly):
         if not cols and not obj_clean(U, oa): return None
         c = rng.choice(cols) if cols and (rng.random() < 0.92 or not obj_clean(U, oa)) else rng.randrange(n_)
         y = rng.randrange(-32, 33) / 16.0
-        return 'yield r%d %d %s %s' % (a, c, how(rng, y), rng.choices(['-', 'm', 'w', 'x'], [55, 21, 21, 3])[0])
+        b_ = rng.choices(['-', 'm', 'w', 'x'], [55, 21, 21, 3])[0]
+        if not obj_clean(U, oa):
+            # the setter refuses |X| > 1: a conversion that is exactly 1 in exact arithmetic may come out as 1 + 1e-16
+            # from coefficients carrying rounding residues — not comparable, so stay away from the boundary
+            try:
+                rows_ = len(f['v'][0]) // n_
+                coef = sum(f['v'][0][p_ * n_ + c] for p_ in range(rows_))
+                xp = y / coef
+                lab_ = {'m': 'mol', 'w': 'wt'}
+                if b_ in lab_ and lab_[b_] != oa._basis:
+                    mw_ = [float(m) for m in oa.chemicals.MW]
+                    r_ = f['ri'][0] % n_
+                    xp *= (mw_[r_] / mw_[c]) if b_ == 'w' else (mw_[c] / mw_[r_])
+                if abs(abs(xp) - 1.0) < 1e-6: return None
+            except ZeroDivisionError:
+                pass
+        return 'yield r%d %d %s %s' % (a, c, how(rng, y), b_)
     if kind == 'mkset':
         good = [k for k in rx if nph(U.objs[k]) == nph(oa) and (U.objs[k]._basis == oa._basis or rng.random() < 0.05)
                 and (U.objs[k].chemicals is oa.chemicals or rng.random() < 0.05)]
